@@ -17,6 +17,11 @@ Theorems about `Model/Inverse.lean` (the model of `setup_inverse`, `solve_invers
                                   row of that element; `unnamed_row_keeps_default`;
 * `minimal_antichain(_fold)`    – under `-minimal`, for any enumeration order and any LP oracle that is exact
                                   (`OracleOK`), no reported model's set contains another one's;
+* `checkIso_sound`, `satisfies_isoBalanced` – isotope balances (linearised as in isotope_balance_equation), solution and
+                                  phase isotope-ratio adjustments within their uncertainties;
+* `satB_sound`, `range_brackets_feasible_model`, `range_silent_criterion` – the executable feasibility test of a vector is
+                                  sound; a feasible reported model with |value| ≤ range_max is bracketed by the TRUE optima of the range
+                                  LPs, so a reported min above / max below it is provably not an optimum (finding range-silent);
 * `range_contains_value`        – the optimum of the range LP (minimise |x_v ∓ range_max| over the feasible set of the model)
                                   brackets the reported value whenever |value| ≤ range_max.
 -/
@@ -105,6 +110,134 @@ theorem range_objective (x : Var → Rat) (v : Var) (R : Rat) :
   simp only [Row.eval, List.map_cons, List.map_nil, sumR]
   congr 1; grind
 
+/-! ## isotopes -/
+
+/-- the executable isotope check implies the declarative isotope clauses -/
+theorem checkIso_sound (p : Problem) (t : Rat) (m : Model) (h : p.checkIso t m = true) : p.IsoBalanced t m := by
+  simp only [Problem.checkIso, Bool.and_eq_true, all_rng_iff, decide_eq_true_eq] at h
+  obtain ⟨⟨hmb, hsol⟩, hph⟩ := h
+  refine ⟨hmb, ?_, ?_⟩
+  · intro q k si hq hk hsi
+    have := hsol q hq k hk
+    rw [hsi] at this
+    simpa [Bool.and_eq_true, decide_eq_true_eq] using this
+  · intro i pi n hi hmem hne
+    have h1 := hph i hi
+    rw [List.all_eq_true] at h1
+    have h2 := h1 (pi, n) hmem
+    simp only [Bool.or_eq_true, beq_iff_eq, Bool.and_eq_true, Bool.not_eq_true', decide_eq_false_iff_not,
+      decide_eq_true_eq] at h2
+    rcases h2 with h0 | ⟨hneg, hpos⟩
+    · exact absurd h0 hne
+    · constructor
+      · intro hc
+        rcases hneg with h3 | h3
+        · exact absurd hc h3
+        · exact h3
+      · intro hc
+        rcases hpos with h3 | h3
+        · exact absurd hc h3
+        · exact h3
+
+/-- any vector satisfying the rows of `setupMatrix` satisfies the isotope clauses exactly: isotope balances, solution
+    isotope ratios adjusted within their uncertainty, phase isotope ratios within theirs -/
+theorem satisfies_isoBalanced (p : Problem) (x mn mx : Var → Rat) (h : p.Satisfies x) : p.IsoBalanced 0 (decode x mn mx) := by
+  obtain ⟨heq, hle, _⟩ := h
+  have hassign : (decode x mn mx).assign = x := by
+    funext v; cases v <;> rfl
+  refine ⟨?_, ?_, ?_⟩
+  · intro n hn
+    rw [hassign, heq _ (isoRow_mem p n hn)]
+    simp [Problem.isoRow, absR]
+  · intro q k si hq hk hsi
+    have h1 := hle { kind := .le, rhs := 0, coeffs := [(Var.iso q k, 1), (Var.soln q, -si.xunc)] }
+      (isoIneq_mem p q k hq hk _ (by simp [Problem.isoIneqRows, hsi]))
+    have h2 := hle { kind := .le, rhs := 0, coeffs := [(Var.iso q k, -1), (Var.soln q, -si.xunc)] }
+      (isoIneq_mem p q k hq hk _ (by simp [Problem.isoIneqRows, hsi]))
+    simp only [Row.eval, List.map_cons, List.map_nil, sumR] at h1 h2
+    simp only [decode]
+    constructor <;> grind
+  · intro i pi n hi hmem hne
+    constructor
+    · intro hc
+      have hr1 : ({ kind := .le, rhs := 0, coeffs := [(Var.phase i, pi.unc), (Var.phiso i n, 1)] } : Row) ∈ p.phisoIneqRows i := by
+        simp only [Problem.phisoIneqRows, List.mem_flatMap]
+        exact ⟨(pi, n), hmem, by dsimp only; rw [if_neg hne, if_pos hc]; simp⟩
+      have hr2 : ({ kind := .le, rhs := 0, coeffs := [(Var.phase i, pi.unc), (Var.phiso i n, -1)] } : Row) ∈ p.phisoIneqRows i := by
+        simp only [Problem.phisoIneqRows, List.mem_flatMap]
+        exact ⟨(pi, n), hmem, by dsimp only; rw [if_neg hne, if_pos hc]; simp⟩
+      have h1 := hle _ (phisoIneq_mem p i hi _ hr1)
+      have h2 := hle _ (phisoIneq_mem p i hi _ hr2)
+      simp only [Row.eval, List.map_cons, List.map_nil, sumR] at h1 h2
+      simp only [decode]
+      constructor <;> grind
+    · intro hc
+      have hnc : ¬ (p.phases.getD i default).constr < 0 := by omega
+      have hr1 : ({ kind := .le, rhs := 0, coeffs := [(Var.phase i, -pi.unc), (Var.phiso i n, -1)] } : Row) ∈ p.phisoIneqRows i := by
+        simp only [Problem.phisoIneqRows, List.mem_flatMap]
+        exact ⟨(pi, n), hmem, by dsimp only; rw [if_neg hne, if_neg hnc, if_pos hc]; simp⟩
+      have hr2 : ({ kind := .le, rhs := 0, coeffs := [(Var.phase i, -pi.unc), (Var.phiso i n, 1)] } : Row) ∈ p.phisoIneqRows i := by
+        simp only [Problem.phisoIneqRows, List.mem_flatMap]
+        exact ⟨(pi, n), hmem, by dsimp only; rw [if_neg hne, if_neg hnc, if_pos hc]; simp⟩
+      have h1 := hle _ (phisoIneq_mem p i hi _ hr1)
+      have h2 := hle _ (phisoIneq_mem p i hi _ hr2)
+      simp only [Row.eval, List.map_cons, List.map_nil, sumR] at h1 h2
+      simp only [decode]
+      constructor <;> grind
+
+/-! ## feasibility of the reported vector, range LPs -/
+
+/-- the executable feasibility test is sound (tolerance 0 = exact) -/
+theorem satB_sound (p : Problem) (x : Var → Rat) (h : p.satB 0 x = true) : p.Satisfies x := by
+  simp only [Problem.satB, Bool.and_eq_true, List.all_eq_true, decide_eq_true_eq, Bool.or_eq_true, Bool.not_eq_true',
+    decide_eq_false_iff_not] at h
+  obtain ⟨⟨heq, hle⟩, hsg⟩ := h
+  refine ⟨fun r hr => ?_, fun r hr => ?_, fun v hv => ⟨fun hs => ?_, fun hs => ?_⟩⟩
+  · have := absR_le_zero (heq r hr); grind
+  · have := hle r hr; grind
+  · rcases (hsg v hv).1 with h1 | h1
+    · exact absurd hs h1
+    · grind
+  · rcases (hsg v hv).2 with h1 | h1
+    · exact absurd hs h1
+    · grind
+
+theorem zeroOutsideB_sound (p : Problem) (mask : Nat) (x : Var → Rat) (h : p.zeroOutsideB 0 mask x = true) :
+    p.ZeroOutside mask x := by
+  simp only [Problem.zeroOutsideB, List.all_eq_true, Bool.or_eq_true, decide_eq_true_eq] at h
+  intro v hv hm
+  rcases h v hv with h1 | h1
+  · rw [hm] at h1; cases h1
+  · exact absR_le_zero h1
+
+/-- `range()`: whenever the reported vector is feasible for the LP of its (mask ∪ forced) and |value| ≤ range_max, the true
+    optima of the two range LPs bracket the reported value -/
+theorem range_brackets_feasible_model (p : Problem) (mask : Nat) (x ymin ymax : Var → Rat) (v : Var) (R : Rat)
+    (hx : p.Feasible mask x) (hlo : -R ≤ x v) (hhi : x v ≤ R)
+    (hmin : ∀ z, p.Feasible mask z → absR (ymin v + R) ≤ absR (z v + R))
+    (hmax : ∀ z, p.Feasible mask z → absR (ymax v - R) ≤ absR (z v - R)) :
+    ymin v ≤ x v ∧ x v ≤ ymax v :=
+  range_bracket (p.Feasible mask) x ymin ymax v R hx hlo hhi hmin hmax
+
+/-- the proved criterion behind the finding `range-silent`: a reported minimum above (maximum below) the value of a
+    feasible reported model is NOT an optimum of the range LP -/
+theorem range_silent_criterion (p : Problem) (mask : Nat) (x y : Var → Rat) (v : Var) (R : Rat)
+    (hx : p.Feasible mask x) (hlo : -R ≤ x v) (hhi : x v ≤ R) :
+    (x v < y v → ¬ ∀ z, p.Feasible mask z → absR (y v + R) ≤ absR (z v + R)) ∧
+    (y v < x v → ¬ ∀ z, p.Feasible mask z → absR (y v - R) ≤ absR (z v - R)) := by
+  constructor
+  · intro hlt hopt
+    have h := hopt x hx
+    unfold absR at h; split at h <;> split at h <;> grind
+  · intro hlt hopt
+    have h := hopt x hx
+    unfold absR at h; split at h <;> split at h <;> grind
+
+/-- a vector satisfies `rangeLP` (all rows but the objective) exactly when it satisfies the problem rows -/
+theorem rangeLP_rows (p : Problem) (v : Var) (t : Rat) (r : Row) :
+    r ∈ p.rangeLP v t ↔ r = { kind := .opt, coeffs := [(v, 1)], rhs := t } ∨ r ∈ p.eqRows ∨ r ∈ p.leRows := by
+  simp [Problem.rangeLP]
+
 /-! ## declared uncertainties (tidy_inverse) -/
 
 /-- tidy_inverse: a `-balances` entry that names a redox ELEMENT reaches EVERY valence-state row of that element
@@ -167,5 +300,21 @@ example : (exProblem.mbRow 0).coeffs =
     minimal models are reported -/
 example : Antichain (search exOracle exCfg).reported := minimal_antichain _ _ exOracle_ok rfl (by decide)
 example : (search exOracle exCfg).reported = [9, 10] := by decide
+
+/-- non-vacuity: one requested isotope (13C of element C, row 0 = C(4)), one solution datum and one dissolving phase;
+    the isotope row has the terms of isotope_balance_equation -/
+def exIso : Problem :=
+  { exProblem with
+    rowNames := ["C(4)"], isos := [{ name := "C", prim := "C", number := 13, isHO := false }],
+    isoUnk := [{ master := "C(4)", number := 13 }],
+    solIso := [[{ master := "C(4)", prim := "C", number := 13, total := 1/1000, ratio := -7, xunc := 1 }],
+               [{ master := "C(4)", prim := "C", number := 13, total := 3/1000, ratio := -2, xunc := 1/2 }]],
+    phIso := [[{ name := "C", prim := "C", number := 13, ratio := 1, coef := 1, unc := 2 }]] }
+example : (exIso.isoRow 0).coeffs =
+    [(Var.soln 0, -7/1000), (Var.eps 0 0, -7), (Var.iso 0 0, 1/1000),
+     (Var.soln 1, 6/1000), (Var.eps 0 1, 2), (Var.iso 1 0, -3/1000),
+     (Var.phase 0, 1), (Var.phiso 0 0, 1)] := by decide +kernel
+example : exIso.setupMatrix.length = 16 + 3 + 1 + 4 + 2 := by decide +kernel
+
 
 end PhreeqcVerif.Inverse
